@@ -1,1 +1,3 @@
-//! Shared helpers for the vserver check parts.
+//! Shared helpers for the vserver check parts (C14).
+pub mod table;
+pub mod world;
